@@ -97,16 +97,18 @@ class Alias:
         return f"__spec_classes_Alias_{self._owner_attr}_override"
 
     def __lookup_attr_path(self, instance, attr_path):
+        def lookup(obj, attr):
+            if attr.startswith("["):
+                return obj[ast.literal_eval(attr[1:-1])]
+            value = getattr(obj, attr)
+            if value is MISSING:
+                # (the class-level placeholder of an attribute declared without
+                # a default: there is no value)
+                raise AttributeError(attr)
+            return value
+
         try:
-            return functools.reduce(
-                lambda obj, attr: (
-                    obj[ast.literal_eval(attr[1:-1])]
-                    if attr.startswith("[")
-                    else getattr(obj, attr)
-                ),
-                attr_path,
-                instance,
-            )
+            return functools.reduce(lookup, attr_path, instance)
         except (AttributeError, KeyError) as e:
             raise AttributeError(
                 f"`{instance.__class__.__name__}{'' if self.attr.startswith('[') else '.'}{self.attr}` [Caused by: {e}]"
